@@ -420,23 +420,34 @@ def ds1(prog, rr):
     else:
         imps = [n for n in walk_local(excl) if isinstance(n, ast.Call) and (dotted(n.func) or "").endswith("ConstraintImpliesModel")]
         wv = norm(excl.target)
+        from sa.ir import local_defs as _ld
+        ldefs = _ld(excl)
+
+        def resolve(e):
+            """the expression(s) a local stands for (a guard or body hoisted into a local, possibly one per branch)"""
+            if isinstance(e, ast.Name) and ldefs.get(e.id):
+                return list(ldefs[e.id])
+            return [e]
         for i in imps:
             cond = i.args[0] if i.args else None
-            ok = cond is not None and isinstance(cond, ast.Call) and len(cond.args) == 3 and norm(cond.args[0]) == wv + ".weight" \
-                and norm(cond.args[1]).endswith("BinExprType.Eq") and "ExprLiteralModel(0" in norm(cond.args[2])
-            rr.inst("exclusion guard: %s" % (norm(cond)[:60] if cond is not None else None))
-            if not ok:
-                rr.finding(f, i, "DistConstraintBuilder.visit_constraint_dist", "DS1: the exclusion is guarded by '%s', not by (weight == 0)" % (norm(cond)[:80] if cond is not None else ""))
-            body = norm(i.args[1]) if len(i.args) > 1 else ""
-            if "UnaryExprType.Not" not in body:
-                rr.finding(f, i, "DistConstraintBuilder.visit_constraint_dist", "DS1: the exclusion body is not the negation of the entry's membership test")
-            else:
-                # the negated term must be exactly `lhs >= lo & lhs <= hi` (range) or `lhs == v` (single value)
-                rng = "rng_rhs" in body
-                if rng and not ("BinExprType.Ge" in body and "BinExprType.Le" in body and "BinExprType.And" in body):
-                    rr.finding(f, i, "DistConstraintBuilder.visit_constraint_dist", "DS1: the excluded range is not Not(lhs >= lo And lhs <= hi): %s" % body[:120])
-                if not rng and "BinExprType.Eq" not in body:
-                    rr.finding(f, i, "DistConstraintBuilder.visit_constraint_dist", "DS1: the excluded value is not Not(lhs == v)")
+            conds = resolve(cond) if cond is not None else []
+            for cond in conds or [None]:
+                ok = cond is not None and isinstance(cond, ast.Call) and len(cond.args) == 3 and norm(cond.args[0]) == wv + ".weight" \
+                    and norm(cond.args[1]).endswith("BinExprType.Eq") and "ExprLiteralModel(0" in norm(cond.args[2])
+                rr.inst("exclusion guard: %s" % (norm(cond)[:60] if cond is not None else None))
+                if not ok:
+                    rr.finding(f, i, "DistConstraintBuilder.visit_constraint_dist", "DS1: the exclusion is guarded by '%s', not by (weight == 0)" % (norm(cond)[:80] if cond is not None else ""))
+            for b in (resolve(i.args[1]) if len(i.args) > 1 else [None]):
+                body = norm(b) if b is not None else ""
+                if "UnaryExprType.Not" not in body:
+                    rr.finding(f, i, "DistConstraintBuilder.visit_constraint_dist", "DS1: the exclusion body is not the negation of the entry's membership test")
+                else:
+                    # the negated term must be exactly `lhs >= lo & lhs <= hi` (range) or `lhs == v` (single value)
+                    rng = "rng_rhs" in body
+                    if rng and not ("BinExprType.Ge" in body and "BinExprType.Le" in body and "BinExprType.And" in body):
+                        rr.finding(f, i, "DistConstraintBuilder.visit_constraint_dist", "DS1: the excluded range is not Not(lhs >= lo And lhs <= hi): %s" % body[:120])
+                    if not rng and "BinExprType.Eq" not in body:
+                        rr.finding(f, i, "DistConstraintBuilder.visit_constraint_dist", "DS1: the excluded value is not Not(lhs == v)")
         adds = [n for n in walk_local(excl) if isinstance(n, ast.Call) and call_name(n) == "addConstraint"]
         if len(adds) < len(imps):
             rr.finding(f, excl, "DistConstraintBuilder.visit_constraint_dist", "DS1: an exclusion constraint is built but not added to the scope", text="excl not added")
@@ -653,14 +664,39 @@ def sp6(prog, rr):
     rr.inst("swizzle(): %d swizzle_field_l sites" % len(calls))
     rr.require(calls, "swizzle() no longer calls swizzle_field_l")
     rs = sw.params[2]
+    # loop variables of the function: `for g in X` -> what g ranges over; locals holding the group list are followed
+    # through their reaching definitions under each assumption
+    loop_src = {}
+    for lp in walk_local(sw.node):
+        if isinstance(lp, ast.For) and isinstance(lp.target, ast.Name):
+            loop_src[lp.target.id] = lp.iter
+    tracked = tuple({norm(v) for v in loop_src.values() if isinstance(v, ast.Name)})
     for ordered in (False, True):
         args = []
 
         def ev(node, st, dom, args=args):
             if isinstance(node, ast.Call) and call_name(node) == "swizzle_field_l":
-                args.append(norm(node.args[0]))
-        specialise(sw, None, None, None, on_event=ev, assume={"%s.rand_order_l is not None" % rs: ordered, "%s.rand_order_l is None" % rs: not ordered,
-                                                              "%s.rand_order_l == None" % rs: not ordered})
+                a = node.args[0]
+                if isinstance(a, ast.Name) and a.id in loop_src:
+                    src = loop_src[a.id]
+                    if isinstance(src, ast.Name):
+                        ds = dom.defs_of(st, src.id)
+                        for d in ds:
+                            v = d.value
+                            # a one-element list literal is that element offered whole; otherwise "each of <expr>"
+                            if isinstance(v, ast.List) and len(v.elts) == 1:
+                                args.append(norm(v.elts[0]))
+                            else:
+                                args.append("each of " + norm(v))
+                        if not ds:
+                            args.append("each of " + norm(src))
+                    else:
+                        args.append("each of " + norm(src))
+                else:
+                    args.append(norm(a))
+        specialise(sw, None, None, None, tracked=tracked, on_event=ev,
+                   assume={"%s.rand_order_l is not None" % rs: ordered, "%s.rand_order_l is None" % rs: not ordered,
+                           "%s.rand_order_l == None" % rs: not ordered})
         rr.inst("swizzle(ordered=%s) offers %s" % (ordered, sorted(set(args))))
         full = any(a == "%s.rand_fields()" % rs or a == "field_l" for a in args)
         if not ordered and not full:
@@ -670,7 +706,7 @@ def sp6(prog, rr):
             # Ordered sets swizzle only the groups named by solve_order directives.  An earlier version of this rule reported
             # the remaining random fields of such a set as "starved"; triage (triage/t14) showed they still take every feasible
             # value (the solver model varies with the swizzled fields), so no clause of C14/C20 is violated -> not armed.
-            if not any("rand_order_l" in a or "ro_l" in a for a in args):
+            if not any("rand_order_l" in a for a in args):
                 rr.finding(sw, calls[0], "SolveGroupSwizzlerPartsel.swizzle", "SP6: the ordered groups of a rand set are never swizzled", text="ordered groups")
 
 
